@@ -254,7 +254,11 @@ class SymArr(_np.ndarray):
         plan = _index_plan(self, key)
         if plan[0] == "basic":
             _, vaxes, fixed = plan
-            return SymArr(self._buf, vaxes, fixed)
+            res = SymArr(self._buf, vaxes, fixed)
+            has_ell = key is Ellipsis or (isinstance(key, tuple) and any(k is Ellipsis for k in key))
+            if res.ndim == 0 and not has_ell:
+                return res.elem()  # numpy returns a scalar, not a 0-d view, for full integer indexing
+            return res
         return _advanced_read(self, plan)
 
     def __setitem__(self, key, value):
@@ -440,6 +444,8 @@ def _is_zero(t):
 
 
 def _kind_of_type(t):
+    if getattr(t, "__name__", "") == "sh_int":
+        return "int"
     if t in (int, _np.int64, _np.int32, _np.int16, "int"):
         return "int"
     if t in (bool, _np.bool_):
@@ -731,13 +737,15 @@ def sym_full_like(a, fill_value, dtype=None, **kw):
 
 
 def sym_array(obj, dtype=None, **kw):
+    if hasattr(obj, "to_symarr"):
+        return obj.to_symarr()
     if isinstance(obj, SymArr):
         return obj.copy()
     if isinstance(obj, (SymReal, SymInt, SymBool)):
         return as_symarr(obj)
     if isinstance(obj, (list, tuple)) and _has_sym(obj):
         # 1-d list of scalars (possibly symbolic)
-        elems = list(obj)
+        elems = [e.elem() if isinstance(e, SymArr) and e.ndim == 0 else e for e in obj]
         if any(isinstance(e, (list, tuple, _np.ndarray)) for e in elems):
             raise Unsupported("nested symbolic array literal")
         k = "real"
@@ -1312,15 +1320,13 @@ def _adv_inverse(a, key, parts, idx_pos, bshape, res_axes):
         if len(axes) > 1:
             raise Unsupported("advanced write with multi-axis index array")
         dep[i] = axes[0] if axes else None
-    used = [d for d in dep.values() if d is not None]
-    if len(set(used)) != len(used):
-        raise Unsupported("advanced write with index arrays sharing a broadcast axis (zip-style)")
     keyparts = [k for k in key if k is not None]
 
     def inv(sidx):
         conds = []
         bidx = [0] * len(bshape)
         slv = {}
+        solved = {}
         si = 0
         for i, p in enumerate(parts):
             if p[0] == "new":
@@ -1338,9 +1344,15 @@ def _adv_inverse(a, key, parts, idx_pos, bshape, res_axes):
                     conds.append(s == p[1]((0,) * len(p[2])))
                 else:
                     n = bshape[ax]
-                    j = _invert_index(p, ax, s, n)
+                    if ax in solved:
+                        # zip-style: another index array already fixed the position on this broadcast axis
+                        j = solved[ax]
+                    else:
+                        j = _invert_index(p, ax, s, n)
+                        solved[ax] = j
+                        conds += [j >= 0, j < _zsize(n)]
                     sub = tuple(j if (k + len(bshape) - len(p[2])) == ax else 0 for k in range(len(p[2])))
-                    conds += [j >= 0, j < _zsize(n), p[1](sub) == s]
+                    conds.append(p[1](sub) == s)
                     bidx[ax] = j
         ridx = []
         for ra in res_axes:
@@ -1627,7 +1639,7 @@ def _opaque_reduction(tag, a: SymArr):
         c = ctx()
         ws = [z3.Int(f"w_{name}_{j}") for j in range(a.ndim)]
         nonempty = z3.And(*[s > 0 for s in shape]) if shape else z3.BoolVal(True)
-        c.solver.add(z3.Implies(nonempty, z3.And(*([w >= 0 for w in ws] + [w < s for w, s in zip(ws, shape)] + [app == fz(tuple(ws))]))))
+        c.assume(z3.Implies(nonempty, z3.And(*([w >= 0 for w in ws] + [w < s for w, s in zip(ws, shape)] + [app == fz(tuple(ws))]))))
     return app
 
 
